@@ -4,7 +4,8 @@
 -- expression against the real evaluator / CompositionPoly / verifier pieces) instantiated with an
 -- arbitrary Mathlib field; trace lengths, widths, constraint sets and assertion sets are unbounded.
 import Mathlib.Algebra.Field.ZMod
-import WinterProofs.Lemmas.C17Def
+import WinterProofs.Lemmas.C17Bridge
+import WinterProofs.Lemmas.C17C01
 
 namespace WinterProofs.C17
 open Model.Divisor Model.Composition WinterProofs.C16L WinterProofs.C17L Polynomial
@@ -614,6 +615,23 @@ theorem committed_eq_definition {root : ℕ → Option F} (beq : F → F → Boo
   rw [verifier_expression_eq_definition air P hP mainPolys auxPolys rands tco bco x hok.he hlen]
   exact ((key ctr cols htrace hcols).2 x hx).symm
 
+/-- **towards C01.**  The integer side condition under which C01's composition theorem imports this
+    property (`LowerLayers.c09_c16_c17_ood` in WinterProofs/C01.lean: the highest quotient degree
+    `highestDegree − (n − e)` is at most `n·ce − 1`, proved there from admissibility) gives the hypothesis
+    `hk` of `committed_eq_definition` for a constraint evaluation domain of `n·ce` points; the degree
+    records and `num_constraint_composition_columns` of the two models coincide
+    (`numCompColumns_eq_compositionColumns`).  The field itself quantifies over every `cols` and `ce`
+    and speaks about an abstract run, so it is not discharged here: with this lemma,
+    `committed_eq_definition` is its content for a run whose domain has blowup `ce`. -/
+theorem hk_of_c01_side_condition (ds : List Model.Protocol.Degree) (n e ce : ℕ) (hn : 0 < n) (hce : 0 < ce)
+    (h : Model.Protocol.highestDegree ds n - (n - e) ≤ n * ce - 1) :
+    n * numCompColumns (ds.map toDivDegree) n e ≤ n * ce ∧
+      numCompColumns (ds.map toDivDegree) n e = Model.Protocol.compositionColumns ds n e :=
+  ⟨columns_fit_of_c01_condition ds n e ce hn hce h, numCompColumns_eq_compositionColumns ds n e⟩
+
+/-- two constraints of degree 1, n = 8, one exemption, ce blowup 2 (C01's Fibonacci-like example) -/
+example : Model.Protocol.highestDegree [⟨1, []⟩, ⟨1, []⟩] 8 - (8 - 1) ≤ 8 * 2 - 1 := by decide
+
 -- ============================================================================================
 -- (i) a complete instance: every hypothesis of the partial theorem discharged
 -- ============================================================================================
@@ -925,6 +943,113 @@ example : (2 : ZMod 97) ^ 8 ≠ 1 ∧
     defAt (fieldOps (ZMod 97) root97) air P polys (fun _ => []) (fun _ => 0) [7, 12] [11, 13, 17] 2
       = some (recombine (fieldOps (ZMod 97) root97) 8 2 (evaluateAt (fieldOps (ZMod 97) root97)
           [[42, 43, 54, 54, 40, 86, 10, 55], [40, 0, 0, 0, 0, 0, 0, 0]] 2)) := by decide +kernel
+
+end Inst97b
+
+-- ============================================================================================
+-- (l) with the reference validity predicate of C02
+-- ============================================================================================
+
+/-- **the same, for the reference validity predicate of C02.**  `Model.VerifierChecks.Valid A M cols pubs`
+    is the predicate `C02.checkMain_iff` proves the executable reference check decides (shape, every
+    asserted cell, every transition constraint on exactly the frames `(s, s + 1)`, `s < n − exemptions`,
+    over cells reduced mod the prime `M`; tied to `genair::is_valid` by the C02 harness).  `toAir` is the
+    corresponding instance of the composition model over `ZMod M` (same constraint trees, the asserted
+    public values as assertion values, main segment only — the C02 descriptions have no auxiliary
+    segment), `Interpolates`: the trace polynomials take the cells on the trace domain.  For every trace
+    the reference check accepts, the committed composition columns recombine to the definition at every
+    point off the trace domain, and the verifier's expression agrees. -/
+theorem committed_eq_definition_of_reference_valid {M : ℕ} [Fact M.Prime] {root : ℕ → Option (ZMod M)}
+    (beq : ZMod M → ZMod M → Bool) (hbeq : ∀ a b, beq a b = true → a = b)
+    (A : Model.VerifierChecks.Air) (pubs : List ℕ) (cols : List (List ℕ)) (degs : List Degree)
+    (hvalid : Model.VerifierChecks.Valid A M cols pubs)
+    (P : Prep (ZMod M)) (hP : prep (fieldOps (ZMod M) root) (toAir M A pubs degs) = some P)
+    (D : Domain (ZMod M)) (threshold : ℕ) (mainPolys : ℕ → List (ZMod M))
+    (hint : Interpolates root P.g A.n cols mainPolys) (hper : PeriodicOK root P.g A.n A.periodic)
+    (rands : ℕ → ZMod M) (tco bco : List (ZMod M))
+    (hok : TraceOK root (toAir M A pubs degs) P D) (hlen : A.constraints.length ≤ tco.length)
+    (hw : IsPrimitiveRoot D.wce D.ceSize) (hroot : root (Nat.log2 D.ceSize) = some D.wce) (ho : D.offset ≠ 0)
+    (hg : IsPrimitiveRoot P.g A.n) (haok : AssertOK root (toAir M A pubs degs) P)
+    (hdeg : DeclaredDegreesOK (toAir M A pubs degs) P mainPolys (fun _ => []) rands)
+    (hk : A.n * numCompColumns degs A.n A.exemptions ≤ D.ceSize)
+    (hoff : ∀ i, (D.ceX (fieldOps (ZMod M) root) i) ^ A.n ≠ 1) :
+    CommittedEqDefinition root beq (toAir M A pubs degs) P D threshold mainPolys (fun _ => []) rands tco bco ∧
+    ∀ ctr cols', compositionTrace (fieldOps (ZMod M) root) beq (toAir M A pubs degs) P D threshold mainPolys
+        (fun _ => []) rands tco bco = some ctr →
+      compositionPoly (fieldOps (ZMod M) root) D ctr (numCompColumns degs A.n A.exemptions) = some cols' →
+      ∀ x, x ^ A.n ≠ 1 →
+        evaluateConstraints (fieldOps (ZMod M) root) (toAir M A pubs degs) P
+            (framesOf (fieldOps (ZMod M) root) mainPolys (fun _ => []) P.g x) rands tco bco x
+          = some (recombine (fieldOps (ZMod M) root) A.n x (evaluateAt (fieldOps (ZMod M) root) cols' x)) := by
+  have hv := validTrace_of_valid root A pubs cols degs P hP hok.hnpos hg hper mainPolys hint rands hvalid
+  have h := committed_eq_definition beq hbeq (toAir M A pubs degs) P hP D threshold mainPolys (fun _ => []) rands
+    tco bco hok (by simpa [toAir] using hlen) hw hroot ho hg haok hdeg
+    (by simpa [toAir] using hk) hoff hv
+  refine ⟨h.1, fun ctr cols' htrace hcols => ?_⟩
+  have hcols' : compositionPoly (fieldOps (ZMod M) root) D ctr
+      (numCompColumns ((toAir M A pubs degs).mainDegs ++ (toAir M A pubs degs).auxDegs) (toAir M A pubs degs).n
+        (toAir M A pubs degs).e) = some cols' := by simpa [toAir] using hcols
+  exact (h.2 ctr cols' htrace hcols').2
+
+namespace Inst97b
+open Inst97
+
+/-- the description of the instance (k) in the form the reference check of C02 reads, with its public
+    values `3 | 10 2 | 4` and the trace as cells -/
+def refAir : Model.VerifierChecks.Air :=
+  ⟨2, 8, 2, [[1, 2]],
+   [.sub (.nxt 0) (.add (.mul (.cur 0) (.cur 0)) (.per 0)), .sub (.add (.nxt 1) (.cur 1)) (.const 13)],
+   [⟨.single, 0, 0, 0⟩, ⟨.sequence, 0, 1, 4⟩, ⟨.periodic, 1, 0, 2⟩]⟩
+
+def refCols : List (List ℕ) := [[3, 10, 5, 26, 96, 2, 6, 50], [4, 9, 4, 9, 4, 9, 4, 20]]
+
+/-- the composition-model instance of the description is the instance (k) -/
+theorem toAir_refAir : toAir 97 refAir [3, 10, 2, 4] [⟨2, [2]⟩, ⟨1, []⟩] = air := by
+  unfold toAir air
+  congr 1
+
+/-- the reference check accepts the trace (`checkMain … = none`), so it is `Valid` (`C02.checkMain_iff`) -/
+example : Model.VerifierChecks.checkMain refAir 97 refCols [3, 10, 2, 4] = none := by decide +kernel
+
+theorem ref_valid : Model.VerifierChecks.Valid refAir 97 refCols [3, 10, 2, 4] := by
+  refine ⟨rfl, by decide, rfl, ?_, by decide +kernel⟩
+  intro k a hk i hi
+  have hk3 : k < 3 := (List.getElem?_eq_some_iff.mp hk).1
+  have H : ∀ k (hk : k < 3) i, i < ((refAir.assertions[k]'hk).steps refAir.n).length →
+      Model.VerifierChecks.assertionHolds refAir refCols [3, 10, 2, 4] k i = true := by decide +kernel
+  obtain ⟨_, rfl⟩ := List.getElem?_eq_some_iff.mp hk
+  exact H k hk3 i hi
+
+theorem interpolates : Interpolates root97 P.g 8 refCols polys where
+  len := valid.mainLen
+  cells := by
+    intro j col hj s v hs
+    have hg : P.g = 64 := by decide +kernel
+    have H : ∀ j (hj : j < refCols.length) s (hs : s < (refCols[j]).length),
+        polyEval (fieldOps (ZMod 97) root97) (polys j) (64 ^ s) = ((refCols[j][s] : ℕ) : ZMod 97) := by
+      decide +kernel
+    obtain ⟨hj', rfl⟩ := List.getElem?_eq_some_iff.mp hj
+    obtain ⟨hs', rfl⟩ := List.getElem?_eq_some_iff.mp hs
+    rw [hg]
+    exact H j hj' s hs'
+
+/-- `validTrace_of_valid` on the instance: the reference predicate yields the `ValidTrace` that (k)
+    checked directly -/
+example : ValidTrace root97 air P polys (fun _ => []) (fun _ => 0) := by
+  have hP : prep (fieldOps (ZMod 97) root97) (toAir 97 refAir [3, 10, 2, 4] [⟨2, [2]⟩, ⟨1, []⟩]) = some P := by
+    rw [toAir_refAir]; exact P_spec
+  have hg : IsPrimitiveRoot P.g 8 := by
+    have : P.g = 64 := by decide +kernel
+    rw [this]; exact g_primitive
+  have h := validTrace_of_valid root97 refAir [3, 10, 2, 4] refCols [⟨2, [2]⟩, ⟨1, []⟩] P hP (by decide) hg
+    (by
+      intro p hp
+      have : p = [1, 2] := by simpa [refAir] using hp
+      subst this
+      exact ⟨by decide, by decide +kernel⟩)
+    polys interpolates (fun _ => 0) ref_valid
+  rw [toAir_refAir] at h
+  exact h
 
 end Inst97b
 
